@@ -231,7 +231,12 @@ fn irr(rng: &mut Rng, ctx: &mut Ctx) {
             r.extra_payloads = codes.clone();
             // entries for codes that are declared but never occur (a newer recorder's event this game did not produce), small and huge
             if k % 2 == 0 { for (c, sz) in [(0x40u8, [1u16, 255, 4096, 65535][(k / 2) % 4]), (0x41, 65535)].iter().take(1 + (k / 8) % 2) { if !KNOWN.contains(c) && !r.extra_payloads.iter().any(|x| x.0 == *c) { r.extra_payloads.push((*c, *sz)); } } }
-            for _ in 0..1 + rng.next() % 4 { let (c, s) = codes[(rng.next() as usize) % codes.len()]; let mut e = vec![c]; e.extend(rng.bytes(s as usize)); let i = (rng.next() as usize) % (body.len() + 1); body.insert(i, e); }
+            for _ in 0..1 + rng.next() % 4 { let (c, s) = codes[(rng.next() as usize) % codes.len()]; let mut e = vec![c]; e.extend(rng.bytes(s as usize));
+                // every other unknown payload of 4+ bytes starts like a frame event: with a frame number of this game, the one after the last, or the one before the first
+                if s >= 4 && rng.next() % 2 == 0 { let ids: Vec<i32> = r.frames.iter().map(|f| f.id).collect(); let lo = ids.first().copied().unwrap_or(-123); let hi = ids.last().copied().unwrap_or(-124);
+                    let pick = match rng.next() % 4 { 0 => hi.wrapping_add(1), 1 => lo.wrapping_sub(1), _ => if ids.is_empty() { -123 } else { ids[(rng.next() as usize) % ids.len()].wrapping_add((rng.next() % 2) as i32) } };
+                    e[1..5].copy_from_slice(&pick.to_be_bytes()); tags.push("unk-frameid".into()); }
+                let i = (rng.next() as usize) % (body.len() + 1); body.insert(i, e); }
         }
         let mut junk = vec![];
         if (what == 1 || what == 4) && r.end.is_some() && !r.double_end { junk = rng.nbytes1(12); if junk.len() == 1 + r.end.as_ref().unwrap().len() && junk[0] == 0x39 { junk[0] = 0x38; } }
@@ -645,6 +650,23 @@ fn tarfmt(rng: &mut Rng, ctx: &mut Ctx) {
         c.impl_out = format!("ok same n={} first=peppi.json sig=true", exp.len());
         c.tags.push(format!("mdjson%512={}", if md_len % 512 == 0 { "0" } else { "n" })); c.tags.push(format!("entries{}", exp.len()));
         ctx.push(c);
+        // the lazy iterator on prefixes: the `tar` crate member by member against `tarScan` (what each cut of the archive makes the reader see)
+        if a.len() <= 40_000 {
+            let mut bounds: Vec<usize> = vec![0]; { let mut pos = 0usize; while pos + 512 <= a.len() { let h = &a[pos..pos + 512]; if h.iter().all(|x| *x == 0) { break; }
+                let sz = h[124..135].iter().fold(0usize, |v, d| v * 8 + (d.wrapping_sub(b'0')) as usize % 8); bounds.push(pos + 512); bounds.push(pos + 512 + sz); pos += 512 + (sz + 511) / 512 * 512; bounds.push(pos); } bounds.push(pos + 512); bounds.push(a.len()); }
+            let mut cuts: Vec<usize> = vec![];
+            for i in 0..(if ctx.thorough { 14 } else { 5 }) { let b = bounds[(rng.next() as usize) % bounds.len()]; let d = [0i64, 1, -1, 0, 7, -200][(i + k) % 6]; let n = (b as i64 + d).clamp(0, a.len() as i64) as usize; cuts.push(n); }
+            cuts.push((rng.next() as usize) % (a.len() + 1));
+            for n in cuts { let pre = &a[..n];
+                let mut out: Vec<String> = vec![]; let mut broken = false;
+                let mut ar = tar::Archive::new(Cursor::new(pre));
+                match ar.entries() { Err(_) => { broken = true; out.push("B".into()); } Ok(it) => { for e in it { match e { Err(_) => { broken = true; out.push("B".into()); break; }
+                    Ok(mut e) => { let name = e.path_bytes().to_vec(); let mut body = vec![]; match e.read_to_end(&mut body) { Ok(_) => {} Err(_) => { out.push("READERR".into()); } }
+                        let sum = body.iter().fold(7u64, |acc, x| (acc * 31 + *x as u64) % 4294967296); out.push(format!("E:{}:{}:{}", String::from_utf8_lossy(&name), body.len(), sum)); } } } } }
+                if !broken { let mut inner = ar.into_inner(); let mut block = [0xffu8; 512]; let t = inner.read_exact(&mut block).is_ok() && block.iter().all(|x| *x == 0); out.push(format!("t={}", t as u8)); }
+                let mut c = Case::new(format!("tarscan {}", hex(pre)), out.join(" ")); c.tags = vec![format!("tarscan:{}", if n == a.len() { "full" } else if bounds.contains(&n) { "boundary" } else { "inside" })];
+                ctx.push(c); }
+        }
     }
 }
 
